@@ -9,3 +9,4 @@ import Dblib.Props.C10.Basic
 import Dblib.Props.C10.Cursor
 import Dblib.Props.C10.Values
 import Dblib.Props.C10.Fields
+import Dblib.Props.C10.Channel
